@@ -906,6 +906,8 @@ def routing_scenarios(ctx: Ctx, n: int, sizes, use_model=True):
         if s < 2 and n > 4:
             profile = ("deep", "clustered")[s]      # depth coverage must not depend on the seed
         n_ops = min(rng.choice(sizes), 250) if profile == "deep" else rng.choice(sizes)
+        if n_ops >= 2000 and profile in ("deep", "clustered"):
+            profile = "mixed"       # the 2000-node histories are about size; depth is covered by the scenarios above
         im, me, m, ops, lines, replies = gen_scenario(ctx, rng, n_ops, profile)
         ctx.count("profile:" + profile)
         ctx.count("scenario-ops:%d" % (50 * round(len(ops) / 50)))
@@ -1343,7 +1345,7 @@ def deep_walk_scenarios(ctx: Ctx, n: int, use_model=True):
             ops.append(("set", me ^ t, 2, rng.choice(RTTS), rng.choice([None, 1, 3])))
         ops.append(("dump",))
         for t in (me, me ^ 1, me ^ rng.choice(deep), me ^ (1 << rng.choice(shallow_bits))):
-            for k in {20, total, max(1, total - 1), rng.randrange(1, 20)}:
+            for k in {20, total, rng.randrange(1, 20)}:
                 ops.append(("closest", t, k, rng.choice([None, None, me ^ rng.choice(deep)]), rng.random() < 0.5))
         im, lines, replies = run_ops(me, None, ops)
         for kk, vv in im.stats.items():
@@ -1402,7 +1404,7 @@ def run(ctx: Ctx):
         small_scope(ctx, 2, 5, 1, [0, 3 << (W - 2), (1 << W) - 1])
         small_scope(ctx, 4, 3, 3, [0, 9 << (W - 4)])
     real_node_ids(ctx)
-    deep_walk_scenarios(ctx, ctx.scale(8, 80))
+    deep_walk_scenarios(ctx, ctx.scale(2, 30))
     routing_scenarios(ctx, ctx.scale(24, 300), [60, 150, 150, 300, 400, 700])
     routing_scenarios(ctx, ctx.scale(1, 10), [2000, 2600])
 
@@ -1422,7 +1424,7 @@ def search(ctx: Ctx, reason: str):
     if ctx.failures:
         return
     real_node_ids(ctx)
-    deep_walk_scenarios(ctx, 12, use_model=False)
+    deep_walk_scenarios(ctx, 4, use_model=False)
     if ctx.failures:
         return
     routing_scenarios(ctx, 60, [150, 300, 400, 700], use_model=False)
